@@ -13,6 +13,7 @@ inductive LocErr
   | full          -- "Not enough Locations"
   | disabled      -- IRQ handler: "SoC does not support IRQs"
   | badParam      -- constructor checks
+  | bankTooBig    -- SoC.finalize: "CSR Bank exceeds its Locations page"
   deriving Repr, DecidableEq
 
 structure LocH (ν : Type) where
